@@ -247,6 +247,31 @@ def shapes(tier, seed):
             {'set': 'inds', 'id': second, 'val': V('v1')}]}, expect=['ok', 'rejected'])
         ok(f'H:{order}:shared-enumeration-key', cfgH(), {'mnemonic': 'te', 'text': 'te eq', 'uses': [{'set': 'enums', 'id': first, 'key': 'eq'}]})
         ok(f'H:{order}:key-only-in-second-enumeration', cfgH(), {'mnemonic': 'te', 'text': 'te gt', 'uses': [{'set': 'enums', 'id': second, 'key': 'gt'}]})
+    # I: macro variants are chosen by the same rules as instruction variants (definition order, specific operands first,
+    # an `empty` operand counts towards `count` but takes no text); each variant expands to an instruction of its own
+    osetsI = {'regs': regs_set(), 'imm8': {'operand_values': {'n': {'type': 'numeric', 'argument': arg(8, True)}}}}
+    one = {'count': 1, 'operand_sets': {'list': ['imm8']}}
+    insI = {'opa': {'bytecode': code('op_a', 8), 'operands': one}, 'opb': {'bytecode': code('op_b', 8), 'operands': one},
+            'opc': {'bytecode': code('op_c', 8), 'operands': one}}
+    with_empty = {'count': 2, 'specific_operands': {'impl': {'list': {'n': {'type': 'numeric', 'argument': arg(8, True)},
+                                                                   'e': {'type': 'empty'}}}}}
+    macI = {'mac': [{'operands': with_empty, 'instructions': ['opa @ARG(0)']},
+                    {'operands': one, 'instructions': ['opb @ARG(0)']},
+                    {'operands': {'count': 2, 'operand_sets': {'list': ['regs', 'imm8']}}, 'instructions': ['opc @ARG(1)']},
+                    {'instructions': ['opc 0']}],
+            'mac2': [{'operands': one, 'instructions': ['opb @ARG(0)']},
+                     {'operands': with_empty, 'instructions': ['opa @ARG(0)']}]}
+    cfgI = lambda **cs: isa(operand_sets=osetsI, instructions=insI, macros=macI, consts=cs)  # noqa
+    UI = lambda v: [{'set': 'imm8', 'id': 'n', 'val': v}]  # noqa
+    ok('I:macro-variant-with-empty-operand-first', cfgI(v1=vrange(8)), {'mnemonic': 'opa', 'text': 'mac v1', 'uses': UI(V('v1'))},
+       expect=['ok', 'rejected'])
+    ok('I:macro-variant-by-operand-count', cfgI(v1=vrange(8)), {'mnemonic': 'opc', 'text': 'mac rb, v1', 'uses': UI(V('v1'))},
+       expect=['ok', 'rejected'])
+    ok('I:macro-variant-without-operands', cfgI(), {'mnemonic': 'opc', 'text': 'mac', 'uses': UI(('c', 0))})
+    ok('I:macro-first-variant-in-definition-order', cfgI(v1=vrange(8)), {'mnemonic': 'opb', 'text': 'mac2 v1', 'uses': UI(V('v1'))},
+       expect=['ok', 'rejected'])
+    rej('I:macro-no-variant-accepts', cfgI(), 'mac ra, rb')
+    rej('I:macro-too-many-operands', cfgI(v1=(0, 5)), 'mac2 v1, v1')
     rej('D:undeclared-register-form', cfgD2(), 't rb')
     rej('D:indirect-of-unlisted-register', cfgD2(), 't [ix]')
     rej('D:register-in-brackets-as-number', cfgD2(), 't [ra]')
